@@ -145,7 +145,7 @@ End SafeT.
 Theorem round_trip_safeT GT q c : SafeT GT (make_url_key (q_url q)) c (round_trip q).
 Proof.
   set (u := make_url_key (q_url q)). unfold round_trip. fold u. destruct (negb _).
-  - unfold handle_unrecognized_method. apply ST_Origin; [reflexivity|]. intros [|r]; [constructor|].
+  - unfold handle_unrecognized_method. destruct (req_only_if_cached _); [constructor|]. apply ST_Origin; [reflexivity|]. intros [|r]; [constructor|].
     destruct (_ && _); [|constructor]. unfold get_refs_clean. constructor. intros ans. apply invalidate_cache_safeT. constructor.
   - unfold get_refs_clean. constructor. intros ans.
     destruct ans as [l|]; cbn [option_map]; [|apply miss_safeT; reflexivity].
